@@ -7,7 +7,7 @@
    Examples/…_from_parse below show parser output meets this) and over all partitions of the
    dump into non-empty reads; they contain no bound on sizes. *)
 From Coq Require Import Lia.
-From BCL Require Import Model.DumpLoad Proofs.EncodingProofs Proofs.BufioProofs Proofs.DumpLoadProofs.
+From BCL Require Import Model.DumpLoad Model.Api Proofs.EncodingProofs Proofs.BufioProofs Proofs.DumpLoadProofs Proofs.ParserInvProofs.
 Open Scope N_scope.
 
 (* Dump succeeds: the scratch buffer is always large enough, no "no space" panic *)
@@ -52,6 +52,15 @@ Theorem C09_load_partition_independent : forall cs,
   Forall (fun c => c <> []) cs -> load_chunks cs = load_bytes (concat cs).
 Proof. exact load_chunks_eq. Qed.
 Print Assumptions C09_load_partition_independent.
+
+(* what the parser produces is well-formed in the sense of the round-trip theorems (constants in range, positions and line table within the source); the two length bounds are hypotheses (a program would need more than 2^61 bytes of source to violate them) *)
+Theorem C09_from_parse : forall name cs,
+  3 * nlen (concat cs) < 2^64 -> nlen name < 2^64 ->
+  ps_code (pr_stats (parse_chunks name cs)) < 2^64 ->
+  ps_constants (pr_stats (parse_chunks name cs)) < 2^64 ->
+  wf_parts (parts_of_prog (pr_prog (parse_chunks name cs))).
+Proof. first [exact ParserInvProofs.parse_wf_partial | apply ParserInvProofs.parse_wf_partial]. Qed.
+Print Assumptions C09_from_parse.
 
 (* non-vacuity: a program with every constant kind, multi-byte sizes and a 300-byte string is
    well-formed and round-trips through one-byte reads *)
